@@ -308,9 +308,25 @@ pub fn check_host(c: &HostCall) -> Outcome {
     if vars.iter().any(|(_, v)| to_cel(v).is_none()) {
         return Outcome::Skip("not-representable-in-chrono");
     }
+    // a macro name in a call shape that is not the macro's (receiver-style `has`, global `all`, a receiver macro with the
+    // wrong number of arguments) is an ordinary call; in the macro's own shape the macro wins and no function is involved
+    let macro_shape = match call_name.as_str() {
+        "has" => c.recv.is_none() && c.args.len() == 1,
+        "all" | "exists" | "exists_one" | "existsOne" | "filter" => c.recv.is_some() && c.args.len() == 2,
+        "map" => c.recv.is_some() && (c.args.len() == 2 || c.args.len() == 3),
+        _ => false,
+    };
+    if macro_shape {
+        return Outcome::Skip("macro-shape");
+    }
     let prog = match sut::compile(&src) {
         Ok(Ok(p)) => p,
-        Ok(Err(_)) => return Outcome::Skip("does-not-compile"),
+        Ok(Err(e)) => {
+            if c.override_builtin.is_some() {
+                return fail(format!("`{src}` is an ordinary call of the host function registered as {call_name:?}, yet it does not compile: {}", sut::trunc(&e, 160)));
+            }
+            return Outcome::Skip("does-not-compile");
+        }
         Err(p) => return fail(format!("compile `{src}` {}", p.short())),
     };
     let mut ctx = sut::ctx_with(&vars);
@@ -319,9 +335,12 @@ pub fn check_host(c: &HostCall) -> Outcome {
         // re-register the host function under the built-in's name
         register_as(&mut ctx, sig.name, b);
     }
+    // the previous case's call runs on this context first (sut::warm): whatever it leaves behind must not matter
+    sut::warm(&ctx);
     take_log();
     let got = sut::exec(&prog, &ctx);
     let logged = take_log();
+    sut::remember(prog);
     let model = bind(&sig.params, &call_name, &c.recv, &c.args);
     let surplus = {
         let consumed = sig.params.iter().filter(|p| !matches!(p, P::Ftx | P::Args)).count() - if c.recv.is_some() { sig.params.iter().filter(|p| matches!(p, P::ThisInt | P::ThisStr | P::ThisAny | P::ThisOptInt | P::ThisOptStr)).count() } else { 0 };
@@ -589,9 +608,9 @@ fn gen_host_call(u: &mut Chooser) -> HostCall {
         }
     }
     if sig.params.contains(&P::Args) {
-        args = (0..u.below(5)).map(|_| Arg::Val(gen_value(u, 1, ValOpts::ALL))).collect();
+        args = (0..u.below(5)).map(|_| if u.chance(1, 8) { Arg::Ident("unbound_name".to_string()) } else { Arg::Val(gen_value(u, 1, ValOpts::ALL)) }).collect();
     }
-    let override_builtin = if matches!(sig.name, "k_v" | "t_v" | "t_s_s" | "va" | "k0" | "k_vv") && u.chance(1, 3) { Some(u.pick(&["size", "contains", "startsWith", "endsWith", "matches", "string", "max", "int", "duration", "getHours"]).to_string()) } else { None };
+    let override_builtin = if matches!(sig.name, "k_v" | "t_v" | "t_s_s" | "va" | "k0" | "k_vv") && u.chance(1, 3) { Some(u.pick(&["size", "contains", "startsWith", "endsWith", "matches", "string", "max", "int", "duration", "getHours", "has", "all", "map", "filter"]).to_string()) } else { None };
     HostCall { sig: si, recv, args, override_builtin }
 }
 
@@ -656,7 +675,7 @@ pub fn run(r: &mut Runner) {
                 fixed.push(HostCall { sig: si, recv: None, args, override_builtin: None });
             }
         }
-        for b in ["size", "contains", "startsWith", "endsWith", "matches", "string", "max", "getHours"] {
+        for b in ["size", "contains", "startsWith", "endsWith", "matches", "string", "max", "getHours", "has", "all", "exists", "map", "filter", "exists_one"] {
             for (name, args, recv) in [("k_v", vec![Arg::Val(V::s("abc"))], None), ("t_v", vec![], Some(V::s("abc"))), ("t_s_s", vec![Arg::Val(V::s("a"))], Some(V::s("abc"))), ("va", vec![Arg::Val(V::Int(1)), Arg::Val(V::Int(2))], None), ("va", vec![Arg::Val(V::s("x")), Arg::Val(V::s("y")), Arg::Val(V::s("z"))], None), ("k_vv", vec![Arg::Val(V::s("foobar")), Arg::Val(V::s("foo"))], None), ("k0", vec![], None)] {
                 let si = all.iter().position(|s| s.name == name).unwrap();
                 fixed.push(HostCall { sig: si, recv, args, override_builtin: Some(b.to_string()) });
